@@ -137,8 +137,16 @@ class SequenceIterator(types.Recoverable, Iterator[_T]):
 
   def __next__(self) -> _T:
     """Iterates the data source given a shard index."""
-    while (result := next(self._it)) is _SKIPPED:
+    try:
+      while (result := next(self._it)) is _SKIPPED:
+        self._index += 1
+    except StopIteration:
+      raise
+    except Exception:
+      # The reader steps over a record it cannot read before raising, the
+      # iteration can continue behind it: the record still occupies an index.
       self._index += 1
+      raise
     self._index += 1
     return result
 
